@@ -136,6 +136,13 @@ loop:
 		return "", "", inherited, errors.New("zero length string")
 	}
 
+	if offset == 0 && key == "" && !strings.ContainsAny(src, "=:\n") {
+		// end of input reached without separator nor line break: last line is a bare (inherited) key
+		key = src
+		offset = len(src)
+		inherited = true
+	}
+
 	if inherited && strings.IndexByte(key, ' ') == -1 {
 		p.line++
 	}
